@@ -1227,6 +1227,10 @@ func c10Cases(tier string) []c10Case {
 			cs = append(cs, c)
 		}
 	}
+	// rogue rows with three shuffled sites out of four (a site drawn twice among three loses a residue; with one or
+	// two shuffled sites nothing can be lost): every RNG answer
+	add(c10Case{Op: "rogue", Seqs: c10Coded(2, 4, nt), Alpha: nt, F1: 0.5, F2: 0.75})
+	add(c10Case{Op: "rogue", Seqs: c10Coded(3, 4, nt), Alpha: nt, F1: 0.4, F2: 0.75})
 	// the same seed with another number of processors, on the large alignment
 	for _, seed := range []int64{1, -5} {
 		for _, c := range []c10Case{
